@@ -94,6 +94,10 @@ class BytesMonitor(BaseMonitor):
                 return ret(None)
         if cq in ('std::min', 'std::max') and len(av) == 2:
             a = ex.argval(av[0], st); b = ex.argval(av[1], st)
+            if isinstance(a, int) and isinstance(b, int) and not isinstance(a, bool) and not isinstance(b, bool):
+                r = min(a, b) if cq == 'std::min' else max(a, b)
+                def g(): yield r, st
+                return g()
             if isinstance(a, (int, Sym)) and isinstance(b, (int, Sym)):
                 n = st.sym(0, None)
                 st.x.setdefault('tags', {})[n.id] = (cq, vkey(a), vkey(b))
@@ -114,40 +118,36 @@ class BytesMonitor(BaseMonitor):
 
 
 def check_limit_bytes(db, fn, nf=frozenset()):
+    """limit_bytes< Maximum >::match evaluated on concrete windows: begin = 0, current = 3, end = current + k for k = 0 .. Maximum + 3 (both sides of the limit);
+    the first private_set_end must be exactly min( k, Maximum ), the guarded rule must see that end, and the end is restored on every way out"""
     mx = [x.get('v') for x in ((fn.get('cls') or {}).get('a') or []) if x.get('k') == 'int']
     if not mx: return ['cannot read Maximum'], 0
     mx = mx[0]
-    mon = BytesMonitor(db, nf); ex = Exec(db, mon); st = State()
-    inp = new_input(st)
-    B = st.sym(1, None); C = st.sym(1, None); E = st.sym(1, None)
-    st.zadd(B.id, C.id, 0); st.zadd(C.id, E.id, 0)
-    st.heap[inp.addr].update({'__B': B, '__C': C, '__E': E})
-    f = Frame(fn); ex.frames.append(f)
-    bind_params(ex, fn, f, st, inp)
+    if mx > 64: raise Unmodelled('Maximum %d is too large for the concrete window' % mx)
     probs = []; n = 0; saw_call = False
-    for comp in ex.run_fn(fn, f, st):
-        s = comp[-1]; n += 1
-        evs = [e for e in s.events if isinstance(e, tuple)]
-        sets = [e for e in evs if e[0] == 'set_end']
-        calls = [e for e in evs if e[0] == 'call']
-        if vkey(s.heap[inp.addr]['__E']) != vkey(E):
-            probs.append('the end of the input is not restored on a path that leaves by %s' % comp[0])
-        if calls:
-            saw_call = True
-            names = [e[0] for e in evs]
-            if not sets or names.index('set_end') > names.index('call'): probs.append('the guarded rule is matched before the end is lowered'); continue
-            first = sets[0][1]
-            # first set_end must be  C + min( E - C, Maximum )
-            size = s.memo.get(('-', E.id, C.id))
-            ok = False
-            if isinstance(first, tuple) and first[0] == 'S':
-                for k, v in s.memo.items():
-                    if v == first[1] and k[0] == '+' and C.id in k[1:]:
-                        other = k[1] if k[2] == C.id else k[2]
-                        tag = s.x.get('tags', {}).get(other)
-                        if tag and tag[0] == 'std::min' and size is not None and {tag[1], tag[2]} == {('S', size), mx}: ok = True
-            if not ok: probs.append('the temporary end is not current() + min( size(), Maximum ): the limit does not count from where the match starts')
-            if calls[0][1] != first: probs.append('the guarded rule does not see the lowered end')
+    for k in range(0, mx + 4):
+        mon = BytesMonitor(db, nf); ex = Exec(db, mon); ex.widen = False; st = State()
+        inp = new_input(st)
+        C0 = 3      # the match starts 3 bytes into the data: begin() and current() differ
+        st.heap[inp.addr].update({'__B': 0, '__C': C0, '__E': C0 + k})
+        f = Frame(fn); ex.frames.append(f)
+        bind_params(ex, fn, f, st, inp)
+        for comp in ex.run_fn(fn, f, st):
+            s = comp[-1]; n += 1
+            evs = [e for e in s.events if isinstance(e, tuple)]
+            sets = [e for e in evs if e[0] == 'set_end']
+            calls = [e for e in evs if e[0] == 'call']
+            if vkey(s.heap[inp.addr]['__E']) != vkey(C0 + k):
+                probs.append('the end of the input is not restored on a path that leaves by %s' % comp[0])
+            if calls:
+                saw_call = True
+                names = [e[0] for e in evs]
+                if not sets or names.index('set_end') > names.index('call'): probs.append('the guarded rule is matched before the end is lowered'); continue
+                first = sets[0][1]
+                if not isinstance(first, int) or isinstance(first, bool): raise Unmodelled('the temporary end is not a concrete position (%r)' % (first,))
+                if first != C0 + min(k, mx):
+                    probs.append('with %d byte(s) available the temporary end is current() %+d, expected current() + min( size(), Maximum ) = current() + %d: the limit does not count %d byte(s) from where the match starts' % (k, first - C0, min(k, mx), mx))
+                if calls[0][1] != first: probs.append('the guarded rule does not see the lowered end')
     if not saw_call: probs.append('the guarded rule is never matched')
     return sorted(set(probs)), n
 
